@@ -36,8 +36,8 @@ import (
 // VerifC15Opts selects the feature flags and the parts the harness instruments.
 type VerifC15Opts struct {
 	Plus, AppProtect, Dos bool
-	DefaultServerSecret   string // -default-server-tls-secret (ns/name), "" = none
-	WildcardTLSSecret     string // -wildcard-tls-secret (ns/name), "" = none
+	DefaultServerSecret   string                   // -default-server-tls-secret (ns/name), "" = none
+	WildcardTLSSecret     string                   // -wildcard-tls-secret (ns/name), "" = none
 	SecretStore           secrets.SecretStore      // harness-supplied (recording) store
 	AppProtectConf        appprotect.Configuration // harness-supplied (recording); nil = the real one
 	Configurator          *configs.Configurator    // nil when only create*Ex / Find* are driven
